@@ -13,6 +13,19 @@ TB = ("Trusted: Lean 4.33 kernel; axioms propext/Classical.choice/Quot.sound onl
       "gcc/glibc/ASan; the C harness's abstraction functions and the script generators.")
 
 CLAIMED = {
+    "C15": {
+        "design_ref": "DESIGN.md 4/C15",
+        "text": "Lean 4 theorems: for each container's clear — slist and dlist (link level: callbacks = the represented sequence, for "
+                "EVERY behaviour of the callback on the element, i.e. the result does not depend on anything read from an element "
+                "after its callback, nothing is written to it afterwards, the list ends initialised), bintree/rbtree/map (callbacks are "
+                "a permutation of the held elements in POST/LEAF order, the access trace touches no element after its callback, map "
+                "frees every node after its callback, container ends as freshly initialised), heap (same via the tree traversal). "
+                "Tied to /repo by running the real clear in every container state of the small-scope closures of all six containers "
+                "with a callback that overwrites/poisons the element (ASan), followed by a fresh fill and use, comparing callback "
+                "order and resulting state with the models; exactly-once / reference oracles.",
+        "note": TB + " That the C code performs no reads of an element other than the modelled ones after its callback is evidenced by ASan-poisoning on every explored state, not proved.",
+        "technique": "Lean 4 proof (per-container clear specifications quantified over the callback's effect) + model/implementation correspondence check with poisoning callbacks",
+    },
     "C01": {
         "design_ref": "DESIGN.md 4/C01",
         "text": "Lean 4 theorems over a functional tree model (bintree and red-black operations reproducing the C code's shape, "
